@@ -33,12 +33,13 @@ pub fn digest(xs: &mut Xstate, dict0: usize) -> String {
         d.marks[0], d.marks[1], d.marks[2], d.marks[3], d.marks[4], d.marks[5], rel_di(dict0, d.marks[6]))
 }
 
-/// everything observable except the instruction meter, the interned-source count and accumulated output
+/// everything observable except the instruction meter and accumulated output (the count of interned sources is
+/// part of it since repair 46ce09e: a rejected source is no longer kept in that list)
 fn state_sig(xs: &mut Xstate) -> String {
     let d = xs.verif_dump();
     let vars: Vec<String> = xs.var_list().iter().map(|(n, c)| format!("{}={}", n, canon::cell(c))).collect();
-    format!("{} mode={} nested={} flows={} inputs={} code={} dmap={} dict={} marks={:?} log={:?} stop={} words={} vars={} code=[{}]",
-        vmcanon::core_dump(&d), d.mode, d.nested, d.flows, d.pending_inputs, d.code_len, d.debug_map_len, d.dict_len, d.marks,
+    format!("{} mode={} nested={} flows={} inputs={} sources={} code={} dmap={} dict={} marks={:?} log={:?} stop={} words={} vars={} code=[{}]",
+        vmcanon::core_dump(&d), d.mode, d.nested, d.flows, d.pending_inputs, d.sources, d.code_len, d.debug_map_len, d.dict_len, d.marks,
         d.reverse_log_len, d.about_to_stop, xs.word_list().len(), vars.join(","), vmcanon::code_str(xs))
 }
 
@@ -85,10 +86,12 @@ pub fn apply(xs: &mut Xstate, op: &Op) -> String {
     }
 }
 
-fn fresh() -> Xstate {
+fn fresh() -> Xstate { fresh_lim(LIMIT) }
+
+pub fn fresh_lim(limit: usize) -> Xstate {
     let mut xs = Xstate::boot().unwrap();
     xs.intercept_stdout(true);
-    xs.set_insn_limit(Some(LIMIT)).unwrap();
+    xs.set_insn_limit(Some(limit)).unwrap();
     xs
 }
 
@@ -142,7 +145,10 @@ fn op_code(op: &Op) -> Option<String> {
 }
 
 /// the whole history as one request for the session model
-pub fn correspondence(ctx: &mut Ctx, pid: &str, ops: &[Op]) {
+pub fn correspondence(ctx: &mut Ctx, pid: &str, ops: &[Op]) { correspondence_lim(ctx, pid, ops, LIMIT) }
+
+/// the same under an instruction limit of the caller's choice
+pub fn correspondence_lim(ctx: &mut Ctx, pid: &str, ops: &[Op], limit: usize) {
     // the model's dictionary is never empty, so that a context mark of 0 (absolute) and a mark at the boot
     // dictionary's size (relative +0) cannot be confused
     let mut words: Vec<String> = vec!["dup".to_string()];
@@ -154,11 +160,11 @@ pub fn correspondence(ctx: &mut Ctx, pid: &str, ops: &[Op]) {
         }
         if let Some(s) = op.src() { if let Some(t) = lex_all(s) { words.extend(t.words); } }
     }
-    let mut xs = fresh();
+    let mut xs = fresh_lim(limit);
     let d = xs.verif_dump();
     let dict0 = d.dict_len;
     let req = format!("{} sess dict={} heap=v({}) lim={}/-/- ops={}", pid, dict_for(&xs, &words),
-        d.heap.iter().map(canon::cell).collect::<Vec<_>>().join(","), LIMIT, codes.join(";"));
+        d.heap.iter().map(canon::cell).collect::<Vec<_>>().join(","), limit, codes.join(";"));
     let mut answers: Vec<String> = Vec::new();
     for op in ops {
         let a = apply(&mut xs, op);
@@ -217,6 +223,32 @@ pub fn run(ctx: &mut Ctx) {
         // --- a rejected source
         let mut rejected_src = gen_rejected(&mut ctx.rng);
         let mut extra_probe: Option<String> = None;
+        let mut file_probes: Vec<String> = Vec::new();
+        if ctx.rng.chance(12) {
+            // the rejected source pulls in files (`require` / `include`, also a file that itself fails to build, also a
+            // file that requires another one): afterwards the files are as unloaded as their definitions are gone
+            ctx.tag("kind:files");
+            let dir = crate::lib_files(&ctx.scratch);
+            let file = *ctx.rng.pick(&["lib1", "lib2", "broken"]);
+            let word = *ctx.rng.pick(&["require", "include"]);
+            let usew = match file { "lib1" => "libword1", "lib2" => "libword2", _ => "libbroken" };
+            if ctx.rng.chance(30) {
+                // the good prefix has loaded one of the files already
+                let f0 = *ctx.rng.pick(&["lib1", "lib2"]);
+                pre.extend(styled(&mut ctx.rng, style, format!("require \"{}/{}.xeh\"", dir, f0)));
+            }
+            rejected_src = format!("{} \"{}/{}.xeh\" {} {}", word, dir, file, usew, rejected_src);
+            for _ in 0..(ctx.rng.below(3) + 1) {
+                let f = *ctx.rng.pick(&["lib1", "lib2", "lib1", "lib2", "broken"]);
+                let w = match f { "lib1" => "libword1", "lib2" => "libword2 libword1", _ => "libbroken" };
+                file_probes.push(match ctx.rng.below(4) {
+                    0 => format!("require \"{}/{}.xeh\" {}", dir, f, w),
+                    1 => format!("include \"{}/{}.xeh\" {}", dir, f, w),
+                    2 => w.to_string(),
+                    _ => format!("require \"{}/{}.xeh\" require \"{}/{}.xeh\" {}", dir, f, dir, f, w),
+                });
+            }
+        }
         if ctx.rng.chance(15) {
             // a constant that exists already is overwritten (more than once) by the rejected source: it must come back
             ctx.tag("kind:constant-overwritten");
@@ -235,10 +267,13 @@ pub fn run(ctx: &mut Ctx) {
             probes.extend(styled(&mut ctx.rng, style, p));
         }
         if let Some(p) = extra_probe { probes.insert(0, if style == 1 { Op::Line(p) } else { Op::Eval(p) }); }
+        let with_files = !file_probes.is_empty();
+        for p in file_probes.into_iter().rev() { probes.insert(0, if style == 1 { Op::Line(p) } else { Op::Eval(p) }); }
         let mut ops = pre.clone();
         ops.push(bad.clone());
         ops.extend(probes.iter().cloned());
-        correspondence(ctx, "C10", &ops);
+        // files are outside the session model: these histories go to the with/without oracle only
+        if !with_files { correspondence(ctx, "C10", &ops); }
         // oracle: with vs without the rejected source
         let mut with = fresh();
         let mut without = fresh();
